@@ -21,7 +21,7 @@ from .graph import build_paths
 from .report import Verdict
 from .tlc import MachineryError, read_ndjson, run_tlc
 
-EXIT_KINDS = ["acm", "cm", "pusha", "pushs", "pushcm", "pusho", "pushp"]   # ... pushed callable object / partial(async def)
+EXIT_KINDS = ["acm", "cm", "pusha", "pushs", "pushcm", "pusho", "pushp", "pushx"]   # ... pushed callable object / partial(async def) / object with __aexit__ only
 CB_KINDS = ["cba", "cbs", "cbk", "cbp", "cbo", "cbw"]   # async def / def / keyword-only def / partial(async def) / callable object / def returning a non-coroutine awaitable
 
 
@@ -55,6 +55,7 @@ class World:
         self.block = None
         self.new = {}
         self.args_ok = True
+        self.excinfo_ok = True    # every exit gets (None, None, None) or (type(exc), exc, traceback) -- never a mixture
         self.popall_hook = None   # what a "popall" exit does (set per unwind by the replay)
         self.acct = Accounting()
 
@@ -71,6 +72,10 @@ class World:
         if any(exc is x for x in self.new.values()):
             return "new"
         return "other:" + type(exc).__name__
+
+    def chk(self, et, ev):
+        if (et is None) != (ev is None) or (ev is not None and et is not type(ev)):
+            self.excinfo_ok = False
 
     def core(self, e, beh, exc):
         if _HUNG["now"]:       # the guard has fired: do nothing any more, so that whatever loops on our behalf runs dry
@@ -104,6 +109,7 @@ class World:
                 return ("value", e)
 
             async def __aexit__(self, et, ev, tb):
+                w.chk(et, ev)
                 return w.core(e, beh, ev)
 
             # ... which also has the synchronous protocol, as a stub that tells people to use `async with`
@@ -119,13 +125,21 @@ class World:
                 return ("value", e)
 
             def __exit__(self, et, ev, tb):
+                w.chk(et, ev)
                 return w.core(e, beh, ev)
 
         async def aexit(et, ev, tb):
+            w.chk(et, ev)
             return w.core(e, beh, ev)
 
         def sexit(et, ev, tb):
+            w.chk(et, ev)
             return w.core(e, beh, ev)
+
+        class OnlyExit:           # an object that can only be exited (no __aenter__): pushed, never entered
+            async def __aexit__(self, et, ev, tb):
+                w.chk(et, ev)
+                return w.core(e, beh, ev)
 
         class ObjExit:            # an object whose call returns a coroutine, pushed as an exit callable
             def __call__(self, et, ev, tb):
@@ -193,6 +207,8 @@ class World:
                 stack.push(ObjExit())
             elif ckind == "pushp":
                 stack.push(pexit)
+            elif ckind == "pushx":
+                stack.push(OnlyExit())
             elif ckind == "cba":
                 stack.callback(acb, "arg", kw=1)
             elif ckind == "cbk":
@@ -221,6 +237,8 @@ class World:
                 stack.push_async_exit(ObjExit())
             elif ckind == "pushp":
                 stack.push_async_exit(pexit)
+            elif ckind == "pushx":
+                stack.push_async_exit(OnlyExit())
             elif ckind == "cba":
                 stack.push_async_callback(acb, "arg", kw=1)
             elif ckind == "cbk":
@@ -570,6 +588,10 @@ def _replay_path(args):
                 bad("exit-of-another-stack-lost", len(path), {"observed": by_log})
     if not out and not w.args_ok:
         bad("callback-arguments-or-enter-value", len(path), {})
+    if not out and not w.excinfo_ok:
+        bad("exit-received-inconsistent-exception-details", len(path), {})
+    if not w2.excinfo_ok:
+        raise MachineryError("contextlib.AsyncExitStack hands inconsistent exception details to an exit")
     if not out and not w.acct.ok():
         bad("foreign-suspension", len(path), {})
     return out
@@ -741,7 +763,7 @@ def flavour_dependence(seed):
     A history whose replay fails for some kinds and passes for others depends on the flavour."""
     res = run_tlc("ExitStack", cfg_text(2, 4), outfiles=["edges.ndjson"], timeout=3000)
     paths = build_paths(read_ndjson(res["files"]["edges.ndjson"]), lambda f: f["n"] == 0 and f["nent"] == 0 and f["unw"]["which"] == "none")
-    salts = [0, 1, 2, 3, 4, 5, 6]
+    salts = [0, 1, 2, 3, 4, 5, 6, 7]
     jobs = [(p, s_) for p in paths for s_ in salts]
     bad = {}
     hangs = 0
@@ -784,7 +806,7 @@ def check(prop, tier, seed, into=None):
         paths = build_paths(edges, lambda f: f["n"] == 0 and f["nent"] == 0 and f["unw"]["which"] == "none")
         # only complete operations end a replay: keep paths whose last step closes an operation
         tot["paths"] += len(paths)
-        salts = [0, 1, 2, 3, 4] if tier == "quick" else [0, 1, 2, 3, 4, 5, 6]     # entries 1..3 + salts reach all kinds of a class (7 exit kinds, 5 callback kinds)
+        salts = [0, 1, 2, 3, 4, 5] if tier == "quick" else [0, 1, 2, 3, 4, 5, 6, 7]     # entries 1..3 + salts reach all kinds of a class (8 exit kinds, 6 callback kinds)
         jobs = [(p, s) for p in paths for s in salts]
         hangs = 0
         with mp.Pool(min(16, os.cpu_count() or 4)) as pool:
